@@ -8,11 +8,16 @@ import (
 	"testing"
 	"time"
 
+	mapset "github.com/deckarep/golang-set"
 	"github.com/idena-network/idena-go/blockchain/types"
 	"github.com/idena-network/idena-go/consensus"
 	"github.com/idena-network/idena-go/core/state"
+	"github.com/idena-network/idena-go/core/state/snapshot"
+	"github.com/idena-network/idena-go/keystore"
+	"github.com/idena-network/idena-go/log"
 	"github.com/idena-network/idena-go/protocol"
 	"github.com/idena-network/idena-go/stats/collector"
+	"github.com/idena-network/idena-go/subscriptions"
 	"github.com/klauspost/compress/s2"
 
 	"verifharness/internal/evid"
@@ -218,5 +223,51 @@ func TestRegressionDecodeForgedLength(t *testing.T) {
 		if err != nil || !bytes.Equal(out, msg) {
 			t.Fatalf("a %d-byte frame of a correct sender does not decode: %v", len(frame), err)
 		}
+	}
+}
+
+// Shrunk failure (TestRanges): while fast syncing, a peer answers a block range
+// request with an honest header and its honest certificate (both public) and an
+// identity-state diff holding one entry {address, Deleted: false, Value: absent}.
+// The diff is applied (IdentityStateDB.AddDiff -> tree.Set(key, nil)) in order to
+// compare the resulting root with the header; the IAVL tree panics on a nil
+// value ("Attempt to store nil value"). processBatch runs on the downloader's
+// goroutine without recover.
+func TestRegressionFastSyncDiffWithoutValue(t *testing.T) {
+	w, a, b := fixedWorld(t, 3)
+	blk := a.Propose().Block
+	cert := w.MakeCert(a, blk, sim.CertValid)
+	if cert.Empty() {
+		t.Fatalf("setup: no certificate")
+	}
+	if err := a.AddBlock(blk); err != nil {
+		t.Fatalf("setup: %v", err)
+	}
+	r := &protocol.VerifBlockRange{BatchId: 1, Blocks: []*protocol.VerifRangeBlock{protocol.VerifC12NewRangeItem(blk.Header, cert,
+		&state.IdentityStateDiff{Values: []*state.IdentityStateDiffValue{{Address: w.Actors[2].Addr, Deleted: false, Value: nil}}})}}
+	wire, err := r.ToBytes()
+	if err != nil {
+		t.Fatal(err)
+	}
+	dec := new(protocol.VerifBlockRange)
+	if err := dec.FromBytes(wire); err != nil || !dec.IsValid() || len(dec.Blocks) != 1 {
+		t.Fatalf("setup: the range does not pass decoding and the IsValid gate: %v", err)
+	}
+	n := newNode(b)
+	g := newGossipNode(b)
+	pr, _ := g.newPeer("serving-peer")
+	ks := keystore.NewKeyStore(t.TempDir()+"/ks", keystore.StandardScryptN, keystore.StandardScryptP)
+	subs, _ := subscriptions.NewManager(t.TempDir())
+	fs := protocol.NewFastSync(g.h, log.New(), b.Chain, b.Ipfs, b.AppState, mapset.NewSet(), &snapshot.Manifest{Height: blk.Height(), Root: blk.Root()}, nil, b.Bus, b.Addr, ks, subs, n.upgrader)
+	if _, err := fs.VerifC12PreConsuming(b.Head()); err != nil {
+		t.Fatalf("setup: preConsuming: %v", err)
+	}
+	if err := fs.VerifC12ValidateHeader(dec.Blocks[0]); err != nil {
+		t.Fatalf("setup: honest header with its honest certificate refused: %v", err)
+	}
+	fs.VerifC12Defer(dec.Blocks[0], pr)
+	mustNotPanic(t, "fastSync.applyDeferredBlocks(diff entry without value)", func() { _, err = fs.VerifC12ApplyDeferredBlocks() })
+	if err == nil {
+		t.Fatalf("a diff that does not lead to the header's identity root was accepted")
 	}
 }
